@@ -3,10 +3,18 @@
 case = {"fields": [[name, [first, [cont, ...]]], ...],   the paragraph before the assignment
         "key":    str,                                   field assigned to (existing name, the same
                                                          name in another letter case, or a new name)
-        "value":  str}                                   the value tried
+        "value":  str,                                   the value tried
+        "origin": str,                                   how the paragraph object was obtained (ORIGINS)
+        "cls":    str,                                   class of the paragraph (CLASSES; default Deb822)
+        "route":  str}                                   how the value is assigned (ROUTES; default d[k] = v)
 
-The paragraph is built by assignment into an empty ``Deb822`` (neighbour values come from the C02
-domain: valid by construction).  Then ``d[key] = value`` is tried and judged:
+The paragraph - a ``Deb822`` or one of its documented subclasses (Dsc, Changes, Sources, BuildInfo,
+Release, PdiffIndex, Packages, Removals) - is built by assignment (neighbour values come from the
+C02 domain: valid by construction).  Then the value is assigned to the field by one of the routes
+``d[key] = value``, ``d.update({key: value})``, ``d.update(Deb822Dict({key: value}))``,
+``d.update(Deb822Dict([(key, value)]))``, ``d.update([(key, value)])``, ``d.update(key=value)`` (names
+that are identifiers) or ``d.setdefault(key, value)`` (new keys) - all of them assign a value to a
+field and must accept/reject alike - and the outcome is judged:
 
 * rejected  -> must be ValueError, the independent rule below must say "reject", and
                ``list(d.items())`` must be what it was;
@@ -15,6 +23,14 @@ domain: valid by construction).  Then ``d[key] = value`` is tried and judged:
                and with the default setting when no continuation line is whitespace-only - must give
                exactly one paragraph whose field names are exactly the paragraph's names, in order.
                Values are not compared (that is C02).
+
+Field names whose value is a list of records *in the paragraph's own class* (Files in a Dsc, SHA256
+in a Release, ...) are outside the property (their value is not a string) and are skipped; the same
+names in any other class are ordinary fields and are generated on purpose.  Before the first case
+of a process one small document of every class with record fields is parsed, dumped and rebuilt by
+assignment, and before a case on such a name the name is used, in the case's spelling, in the
+classes where it carries records: a paragraph is judged in a process that has used the library
+for other kinds of control file before.
 """
 import io
 import itertools
@@ -24,7 +40,8 @@ from hypothesis import strategies as st
 from ..core import Violation, Enum, Hyp, short
 from ..gen import c02_deb822text as G
 
-from debian.deb822 import Deb822
+from debian import deb822 as _lib
+from debian.deb822 import Deb822, Deb822Dict
 
 ID = "C08"
 LEVEL = "exploration"
@@ -36,6 +53,14 @@ RULE = ("a case is (paragraph, key, value); enumerated: every string of 0..4 cha
         "armor line, ...) assigned to the first/middle/last key, to the same key in another letter case "
         "or to a new key of a 1..4-field paragraph with single- and multi-line neighbours (160 fixed "
         "paragraphs over boundary-shaped values, or a freshly generated one). "
+        "Further dimensions of every generated case and of a second enumeration (every string of 0..3 "
+        "characters over the same 12 characters x 7 assignment routes): the route - d[k]=v, update(dict), "
+        "update(Deb822Dict from a dict / from pairs), update(list of pairs), update(**kw), setdefault for "
+        "a new key; the class of the paragraph - Deb822, Dsc, Changes, Sources, BuildInfo, Release, "
+        "PdiffIndex, Packages, Removals; and keys that carry records in another class but are ordinary in "
+        "this one (Files in a Release, SHA256 in a Dsc, ...: all 0..1-character strings x every such "
+        "(class, name) pair, as the middle field and as a new key in another letter case), after ordinary "
+        "use of every class in the same process. "
         "Non-trivial = the value is rejected, or is accepted and contains a line boundary (LF or CR); "
         "distinct = distinct canonical JSON of the case")
 ASSUMPTIONS = [
@@ -46,13 +71,34 @@ ASSUMPTIONS = [
     "at LF, CR LF and CR (the coarsest reading: the default parser setting is then not exercised)",
     "field names of the dumped paragraph are taken from the object itself (list(d.keys())) and must "
     "equal, ignoring case, the names before the assignment plus the assigned key if it was new",
+    "which field names carry records (lists of dicts, not strings) in which class is restated by hand "
+    "from the file formats (.dsc/.changes/Sources: Files, Checksums-Sha1/256/512; .buildinfo: "
+    "Checksums-Md5/Sha1/Sha256/Sha512; Release: MD5Sum, SHA1, SHA256, SHA512; pdiff Index: "
+    "[X-Unmerged-]SHA1/SHA256-History/Patches/Download and SHA1/SHA256-Current); a case whose key or "
+    "neighbour has such a name in the paragraph's own class is skipped, never judged",
+    "update() is exercised with exactly one item, so that 'rejected leaves the paragraph unchanged' "
+    "is what the statement says; setdefault on an existing key and the keyword form with a name that is "
+    "not an identifier fall back to d[k]=v / update(dict) (label route:...)",
+    "the warm-up (parse, read, dump, re-assign one two-record document per class; per case the same "
+    "for the case's spelling of the key in the classes where it carries records) is not judged; an "
+    "exception escaping from it is reported by the engine as EXC:...",
     "Hypothesis 6.168 generators; sha1 for distinctness",
 ]
 EXHAUSTIVE = {
     "quick": "all strings of 0..4 characters over 12 characters (22 621) assigned to the middle key of "
-             "A,K,Z; all strings of 0..3 characters (1 885) x {first key, last key, new key}",
+             "A,K,Z; all strings of 0..3 characters (1 885) x {first key, last key, new key}; "
+             "all strings of 0..3 characters x 7 assignment routes (class and origin cycling); all strings "
+             "of 0..1 characters x every (class, name carrying records in another class) pair",
     "thorough": "all strings of 0..5 characters over 12 characters (271 453) assigned to the middle key of "
-                "A,K,Z; all strings of 0..4 characters (22 621) x {first key, last key, new key}",
+                "A,K,Z; all strings of 0..4 characters (22 621) x {first key, last key, new key}; "
+                "all strings of 0..4 characters x 7 assignment routes (class and origin cycling); all "
+                "strings of 0..1 characters x every (class, name carrying records in another class) pair",
+}
+EXHAUSTIVE_ROUTES = {
+    "quick": "all strings of 0..3 characters over 12 characters (1 885) x 7 routes, + one (class, foreign "
+             "record name) pair each; all strings of 0..1 characters (13) x all such pairs x 2",
+    "thorough": "all strings of 0..4 characters over 12 characters (22 621) x 7 routes, + one (class, foreign "
+                "record name) pair each; all strings of 0..1 characters (13) x all such pairs x 2",
 }
 BUDGET = {"quick": 200, "thorough": 1500}
 
@@ -147,52 +193,209 @@ def _classify(got, names):
     return "field-order", "order %r" % g
 
 
+# ------------------------------------------------------------------------------------------
+# the classes of paragraph, and the field names whose value is a list of records (not a string)
+#
+# "A Deb822 paragraph" includes the library's documented subclasses.  In some of them a few field
+# names carry *records* (a .dsc's Files, a Release file's SHA256, ...): their value is not a plain
+# string, and assigning to them is outside this property (C12's business).  The table restates, by
+# hand, which names those are in which file format; everywhere else the same name is an ordinary
+# field and the property applies to it in full.
+
+_SRC = ["Files", "Checksums-Sha1", "Checksums-Sha256", "Checksums-Sha512"]
+_PDIFF = [pre + h + "-" + what for pre in ("", "X-Unmerged-") for h in ("SHA1", "SHA256")
+          for what in ("History", "Patches", "Download")] + ["SHA1-Current", "SHA256-Current"]
+STRUCTURED = {
+    "Deb822": [],
+    "Packages": [],
+    "Removals": [],
+    "Dsc": _SRC,
+    "Changes": _SRC,
+    "Sources": _SRC,
+    "BuildInfo": ["Checksums-Md5", "Checksums-Sha1", "Checksums-Sha256", "Checksums-Sha512"],
+    "Release": ["MD5Sum", "SHA1", "SHA256", "SHA512"],
+    "PdiffIndex": _PDIFF,
+}
+CLASSES = list(STRUCTURED)
+STRUCTURED_LOWER = {c: frozenset(n.lower() for n in names) for c, names in STRUCTURED.items()}
+ALL_STRUCTURED = sorted({n for names in STRUCTURED.values() for n in names})
+
+
+def foreign_names(cls):
+    """Names that carry records in some *other* class and are ordinary fields in ``cls``."""
+    return [n for n in ALL_STRUCTURED if n.lower() not in STRUCTURED_LOWER[cls]]
+
+
+def _record_line(cls, name):
+    """One well-formed record of field ``name`` of class ``cls`` (plain data about the formats)."""
+    if cls == "Changes" and name.lower() == "files":
+        return "0123456789abcdef0123456789abcdef 11 misc optional w_1.dsc"
+    if cls == "PdiffIndex":
+        return "0123abcd 11" + ("" if name.lower().endswith("-current") else " 2026-01-01-0000.00")
+    return "0123abcd 11 w_1.orig.tar.gz"
+
+
+def _use_structured(cls, names):
+    """Ordinary use of a ``cls`` paragraph whose record fields ``names`` are present: parse it,
+    look at the records, dump it, assign the records to a second paragraph, dump that."""
+    klass = getattr(_lib, cls)
+    text = "Origin: w\n"
+    for n in names:
+        rec = _record_line(cls, n)
+        single = cls == "PdiffIndex" and n.lower().endswith("-current")
+        text += "%s: %s\n" % (n, rec) if single else "%s:\n %s\n %s\n" % (n, rec, rec)
+    p = klass(text)
+    q = klass()
+    q["Origin"] = "w"
+    for n in names:
+        q[n] = p[n]
+    p.dump()
+    q.dump()
+
+
+_WARM = []
+
+
+def warm_up():
+    """Once per process, before the first case: one small document of every class that has record
+    fields, every such field present in its usual spelling - the process has then *used* the
+    library the ordinary way, as any program handling several kinds of control file has."""
+    if _WARM:
+        return
+    _WARM.append(True)
+    for cls in CLASSES:
+        if STRUCTURED[cls]:
+            _use_structured(cls, STRUCTURED[cls])
+
+
+def warm_up_key(own_cls, key):
+    """Before a case on a name that carries records elsewhere: use that very spelling of the name
+    in every class where it does."""
+    for cls in CLASSES:
+        if cls != own_cls and key.lower() in STRUCTURED_LOWER[cls]:
+            _use_structured(cls, [key])
+
+
+# ------------------------------------------------------------------------------------------
+# the routes by which a value is assigned to a field
+
+ROUTES = ["setitem", "update-dict", "update-Deb822Dict", "update-Deb822Dict-pairs", "update-pairs",
+          "update-kwargs", "setdefault"]
+
+
+def effective_route(route, key, is_new):
+    """setdefault assigns only when the key is new, the keyword form needs an identifier: where a
+    route does not apply, the plain one is taken."""
+    if route == "setdefault" and not is_new:
+        return "setitem"
+    if route == "update-kwargs" and not key.isidentifier():
+        return "update-dict"
+    return route
+
+
+def assign(d, key, value, route):
+    if route == "setitem":
+        d[key] = value
+    elif route == "update-dict":
+        d.update({key: value})
+    elif route == "update-Deb822Dict":
+        d.update(Deb822Dict({key: value}))
+    elif route == "update-Deb822Dict-pairs":
+        d.update(Deb822Dict([(key, value)]))
+    elif route == "update-pairs":
+        d.update([(key, value)])
+    elif route == "update-kwargs":
+        d.update(**{key: value})
+    elif route == "setdefault":
+        d.setdefault(key, value)
+    else:
+        raise AssertionError(route)
+
+
+def name_ok(n):
+    """Policy 5.1 field name (the names that carry records in some class are allowed here)."""
+    return (isinstance(n, str) and n != "" and n[0] in G.NAME_FIRST and all(c in G.NAME_CHARS for c in n))
+
+
+def fields_ok(fields):
+    if not isinstance(fields, list) or not fields:
+        return False
+    seen = set()
+    for f in fields:
+        if not (isinstance(f, list) and len(f) == 2 and name_ok(f[0]) and G.valid_value(f[1])):
+            return False
+        if f[0].lower() in seen:
+            return False
+        seen.add(f[0].lower())
+    return True
+
+
 ORIGINS = ["new", "empty-str", "empty-list", "blank-lines", "empty-bytes", "parsed", "parsed-lines",
            "iter", "copy", "mapping", "dsc-empty"]
 
 
-def make_paragraph(fields, origin):
-    """The paragraph the value is assigned into, obtained the way ``origin`` says: the property
-    speaks of *any* paragraph, however the object came to be."""
+def make_paragraph(fields, origin, cls="Deb822"):
+    """The paragraph the value is assigned into, of class ``cls``, obtained the way ``origin``
+    says: the property speaks of *any* paragraph, however the object came to be."""
+    klass = getattr(_lib, cls)
+
     def fill(d):
         for n, v in fields:
             d[n] = G.value_string(v)     # C02 domain: must be accepted; a ValueError here escapes
         return d
     if origin == "empty-str":
-        return fill(Deb822(""))
+        return fill(klass(""))
     if origin == "empty-list":
-        return fill(Deb822([]))
+        return fill(klass([]))
     if origin == "blank-lines":
-        return fill(Deb822("\n\n"))
+        return fill(klass("\n\n"))
     if origin == "empty-bytes":
-        return fill(Deb822(io.BytesIO(b"")))
-    if origin == "dsc-empty":
-        from debian.deb822 import Dsc
-        return fill(Dsc(""))
-    base = fill(Deb822())
+        return fill(klass(io.BytesIO(b"")))
+    if origin == "dsc-empty":            # (the effective class is Dsc: see effective_class)
+        return fill(klass(""))
+    base = fill(klass())
     if origin == "parsed":
-        return Deb822(base.dump())
+        return klass(base.dump())
     if origin == "parsed-lines":
-        return Deb822(base.dump().split("\n"))
+        return klass(base.dump().split("\n"))
     if origin == "iter":
-        got = list(Deb822.iter_paragraphs(base.dump()))
+        got = list(klass.iter_paragraphs(base.dump(), use_apt_pkg=False))
         if len(got) != 1:
             raise Violation("origin-parse", "iter_paragraphs of %s gave %d paragraphs" % (short(base.dump()), len(got)))
         return got[0]
     if origin == "copy":
         return base.copy()
     if origin == "mapping":
-        return Deb822(base)
+        return klass(base)
     return base
 
 
+def effective_class(cls, origin):
+    return "Dsc" if (cls == "Deb822" and origin == "dsc-empty") else cls
+
+
 def check(case):
-    if not (isinstance(case, dict) and G.valid_fields(case.get("fields")) and G.valid_name(case.get("key"))
-            and in_domain(case.get("value"))):
+    if not (isinstance(case, dict) and fields_ok(case.get("fields")) and name_ok(case.get("key"))
+            and in_domain(case.get("value")) and isinstance(case.get("cls", "Deb822"), str)
+            and case.get("cls", "Deb822") in STRUCTURED and isinstance(case.get("route", "setitem"), str)
+            and case.get("route", "setitem") in ROUTES):
         return (False, ("invalid-or-out-of-domain-case-skipped",))
     fields, key, value = case["fields"], case["key"], case["value"]
+    origin = case.get("origin", "new")
+    cls = effective_class(case.get("cls", "Deb822"), origin)
+    own = STRUCTURED_LOWER[cls]
+    if key.lower() in own or any(f[0].lower() in own for f in fields):
+        # the value of such a field is a list of records in this class, not a plain string
+        return (False, ("record-field-of-own-class-skipped",))
 
-    d = make_paragraph(fields, case.get("origin", "new"))
+    warm_up()
+    elsewhere = any(key.lower() in STRUCTURED_LOWER[c] for c in CLASSES)
+    if elsewhere:
+        warm_up_key(cls, key)
+
+    d = make_paragraph(fields, origin, cls)
+    if type(d).__name__ != cls:      # the table above would be the wrong one for this object
+        return (False, ("origin-gave-another-class-skipped",))
     before = [[k, v] for k, v in d.items()]
     names_before = [f[0] for f in fields]
     lower = [n.lower() for n in names_before]
@@ -205,16 +408,22 @@ def check(case):
     else:
         target = "new-key"
         expect_lower = lower + [key.lower()]
+    route = effective_route(case.get("route", "setitem"), key, target == "new-key")
+    how = "d[%r] = %r" % (key, value) if route == "setitem" else "%s of %r: %r" % (route, key, value)
+    if cls != "Deb822":
+        how = "%s paragraph, %s" % (cls, how)
 
     verdict = rule(value)
-    labels = ["target:" + target, "origin:" + str(case.get("origin", "new"))]
+    labels = ["target:" + target, "origin:" + str(origin), "class:" + cls, "route:" + route]
+    if elsewhere:
+        labels.append("name-carries-records-in-another-class")
     if "\r" in value:
         labels.append("cr-present")
     if any(len(f[1][1]) > 0 for f in fields):
         labels.append("multiline-neighbour")
 
     try:
-        d[key] = value
+        assign(d, key, value, route)
         accepted = True
     except ValueError:
         accepted = False
@@ -223,8 +432,8 @@ def check(case):
         after = [[k, v] for k, v in d.items()]
         if after != before:
             raise Violation("rejected-but-state-changed",
-                            "d[%r] = %r raised ValueError but items went from %s to %s"
-                            % (key, value, short(before), short(after)))
+                            "%s raised ValueError but items went from %s to %s"
+                            % (how, short(before), short(after)))
         # The statement only says which values MUST be rejected.  That a value is accepted is
         # promised elsewhere (C02) for first line + continuation lines that start with a blank and
         # contain non-blank text; for other values (whitespace-only continuation lines, CR used as
@@ -237,8 +446,8 @@ def check(case):
             return (True, labels)
         if verdict is None:
             raise Violation("rejected-valid-value",
-                            "d[%r] = %r raised ValueError although it does not end in a newline and every "
-                            "continuation line starts with a blank" % (key, value))
+                            "%s raised ValueError although it does not end in a newline and every "
+                            "continuation line starts with a blank" % how)
         labels.append("rejected:" + verdict)
         return (True, labels)
 
@@ -251,21 +460,25 @@ def check(case):
     bad = None
     for sname, strict in settings:
         for fname, make in _forms(text):
-            got = [list(p.keys()) for p in Deb822.iter_paragraphs(make(), strict=strict)]
-            sig, why = _classify(got, names)
+            try:
+                got = [list(p.keys()) for p in Deb822.iter_paragraphs(make(), strict=strict)]
+            except ValueError as e:          # the parser refusing the dump: no paragraph at all
+                got, sig, why = None, "reread-raised", "ValueError(%s)" % e
+            else:
+                sig, why = _classify(got, names)
             if sig and bad is None:
                 bad = (sig, "dump %s re-read as %s (%s) gives %s: %s; expected one paragraph with %r"
                        % (short(text), fname, sname, short(got), why, names))
 
     if verdict is not None:
         raise Violation("accepted-invalid:" + verdict,
-                        "d[%r] = %r was accepted (%s); %s" % (
-                            key, value, verdict, bad[1] if bad else "dump is %s" % short(text)))
+                        "%s was accepted (%s); %s" % (
+                            how, verdict, bad[1] if bad else "dump is %s" % short(text)))
     if [n.lower() for n in names] != expect_lower:
-        raise Violation("object-keys-unexpected", "after d[%r] = %r keys are %r, expected (ignoring case) %r"
-                        % (key, value, names, expect_lower))
+        raise Violation("object-keys-unexpected", "after %s keys are %r, expected (ignoring case) %r"
+                        % (how, names, expect_lower))
     if bad:
-        raise Violation(bad[0], "d[%r] = %r accepted; %s" % (key, value, bad[1]))
+        raise Violation(bad[0], "%s accepted; %s" % (how, bad[1]))
 
     multiline = ("\n" in value) or ("\r" in value)
     labels.append("accepted-multiline" if multiline else "accepted-single-line")
@@ -305,6 +518,47 @@ def enum_cases(maxlen):
     return gen
 
 
+def _othercase(n):
+    s = n.swapcase()
+    return s if s != n else n          # names without letters have no other spelling
+
+
+FOREIGN_PAIRS = [(c, n) for c in CLASSES for n in foreign_names(c)]
+
+
+def _akz(middle):
+    return [AKZ[0], [middle, AKZ[1][1]], AKZ[2]]
+
+
+def enum_route_cases(maxlen):
+    """The assignment *route* and the *class* of the paragraph as dimensions of the enumeration."""
+    def gen():
+        k = 0
+        for n in range(0, maxlen + 1):
+            for seq in itertools.product(ENUM_CHARS, repeat=n):
+                v = "".join(seq)
+                k += 1
+                # every value meets every route (classes and origins cycle, coprime with 12 and 7)
+                for r, route in enumerate(ROUTES):
+                    yield {"fields": AKZ, "key": "New" if route == "setdefault" else "K", "value": v,
+                           "origin": ORIGINS[(k + r) % len(ORIGINS)], "cls": CLASSES[(k + 2 * r) % len(CLASSES)],
+                           "route": route}
+                # ... and one (class, name that carries records in another class) pair, the name
+                # being the middle field or a new one
+                c, name = FOREIGN_PAIRS[(k * 5) % len(FOREIGN_PAIRS)]
+                yield {"fields": _akz(name) if k % 2 else AKZ, "key": name, "value": v,
+                       "origin": ORIGINS[(k + 1) % len(ORIGINS)], "cls": c, "route": ROUTES[k % len(ROUTES)]}
+                # every value of up to 1 character meets every such pair
+                if n <= 1:
+                    for j, (c, name) in enumerate(FOREIGN_PAIRS):
+                        yield {"fields": _akz(name), "key": name, "value": v,
+                               "origin": ORIGINS[(k + j) % len(ORIGINS)], "cls": c, "route": "setitem"}
+                        yield {"fields": AKZ, "key": _othercase(name), "value": v,
+                               "origin": ORIGINS[(k + j + 4) % len(ORIGINS)], "cls": c,
+                               "route": ROUTES[(k + j) % len(ROUTES)]}
+    return gen
+
+
 TOKENS = (["a", "b", "Z", "0", "9", ":", "#", " ", " ", "\t", "\r", "\n", "\n", ".", "-", "é", "漢"]
           + ["\n ", "\n ", "\n\t", "\n\n", "\r\n", "\r\n ", "\r ", "B: ", "B:", "\nB: ", "\n B: ", "\n#", "\n #",
              "\n.", "\n .", " \n", "\t\n", "\n \n", "\n\t\r", ": ", "\n -----BEGIN PGP SIGNED MESSAGE-----",
@@ -316,11 +570,6 @@ text_value = st.builds(lambda v: G.value_string(v), G.value)          # always a
 near_valid = st.builds(lambda v, t, w: G.value_string(v)[:w] + t + G.value_string(v)[w:],
                        G.value, st.sampled_from(TOKENS), st.integers(0, 12))
 any_value = st.one_of(token_value, token_value, token_value, near_valid, text_value)
-
-
-def _othercase(n):
-    s = n.swapcase()
-    return s if s != n else n          # names without letters have no other spelling
 
 
 def _neighbour_pool():
@@ -349,11 +598,17 @@ paragraph = st.one_of(st.sampled_from(NEIGHBOURS), st.sampled_from(NEIGHBOURS), 
                       st.sampled_from(NEIGHBOURS), G.fields(min_size=1, max_size=4))
 
 
+cls_name = st.one_of(st.just("Deb822"), st.sampled_from(CLASSES))                 # 5/9 plain Deb822
+route_name = st.one_of(st.just("setitem"), st.sampled_from(ROUTES), st.sampled_from(ROUTES))
+
+
 @st.composite
 def gen_case(draw):
     fields = draw(paragraph)
-    how = draw(st.sampled_from(["first", "middle", "last", "new", "othercase", "othercase"]))
+    cls = draw(cls_name)
+    how = draw(st.sampled_from(["first", "middle", "last", "new", "othercase", "othercase", "elsewhere"]))
     names = [f[0] for f in fields]
+    lower = [n.lower() for n in names]
     if how == "first":
         key = names[0]
     elif how == "last":
@@ -362,16 +617,27 @@ def gen_case(draw):
         key = names[len(names) // 2]
     elif how == "othercase":
         key = _othercase(names[draw(st.integers(0, len(names) - 1))])
+    elif how == "elsewhere":
+        # a name that carries records in another class: new, or taking the place of a field
+        key = draw(st.sampled_from(foreign_names(cls)))
+        if key.lower() not in lower and draw(st.booleans()):
+            i = draw(st.integers(0, len(names) - 1))
+            fields = [[key if j == i else f[0], f[1]] for j, f in enumerate(fields)]
+        if draw(st.booleans()):
+            key = _othercase(key)
     else:
         key = "New-Field"
-        if key.lower() in [n.lower() for n in names]:
+        if key.lower() in lower:
             key = "New-Field-2"
-    return {"fields": fields, "key": key, "value": draw(any_value), "origin": draw(st.sampled_from(ORIGINS))}
+    return {"fields": fields, "key": key, "value": draw(any_value), "origin": draw(st.sampled_from(ORIGINS)),
+            "cls": cls, "route": draw(route_name)}
 
 
 def sources(tier):
     if tier == "quick":
         return [Enum("values<=4chars", enum_cases(4), EXHAUSTIVE["quick"]),
+                Enum("routes-classes<=3chars", enum_route_cases(3), EXHAUSTIVE_ROUTES["quick"]),
                 Hyp("token-values", gen_case(), 1200, shards=8)]
     return [Enum("values<=5chars", enum_cases(5), EXHAUSTIVE["thorough"]),
+            Enum("routes-classes<=4chars", enum_route_cases(4), EXHAUSTIVE_ROUTES["thorough"]),
             Hyp("token-values", gen_case(), 25000, shards=16)]
